@@ -10,7 +10,7 @@
 
   Hypotheses (`Admissible`): no receipts (the receipt queue is the one resource all connections share by design, C19);
   a member of the session does not ask to join ANOTHER session by id (whether that session exists is, legitimately,
-  visible to the members it would leave); one member, the anchor, only listens (so the session does not end; what
+  visible to the members it would leave - it may leave by disconnecting or by asking for a session of its own); one member, the anchor, only listens (so the session does not end; what
   happens around the end of a session and the reuse of its id is C07 / C10).  The scheduler in front of the handler
   (per-connection queues, frames) is state of the connection itself and is not part of this statement.
 -/
@@ -63,9 +63,12 @@ def isReceipt : Req → Bool
   | .receipt .. => true
   | _ => false
 
-/-- a join that would take a member out of the session: to another session by id, or to a new one -/
+/-- a join that names another session by its id -/
 def joinsOther (xid : Nat) : Req → Bool
   | .join _ _ (.id n) => n != xid
+  | _ => false
+
+def isJoinNew : Req → Bool
   | .join _ _ .new => true
   | _ => false
 
@@ -356,7 +359,7 @@ def memberAll (cfg : Cfg) (x : Session) (p : Part) (r : Req) (hint : Nat) : Sess
 
 theorem member_any (cfg : Cfg) {srv : Server} (h : srv.WF) {x : Session} (hx : x ∈ srv.sessions) {p : Part}
     (hp : p ∈ x.parts) {a : Nat} (ha : a ∈ x.parts.map (·.conn)) (hne : a ≠ p.conn) (r : Req) (hint : Nat)
-    (hrc : isReceipt r = false) (hj : joinsOther x.id r = false) :
+    (hrc : isReceipt r = false) (hj : joinsOther x.id r = false) (hnew : isJoinNew r = false) :
     (memberAll cfg x p r hint).1 ∈ (stepReq cfg srv ⟨p.conn, r, hint⟩).1.sessions ∧
     (stepReq cfg srv ⟨p.conn, r, hint⟩).2 = (memberAll cfg x p r hint).2 ∧
     (memberAll cfg x p r hint).1.id = x.id ∧ a ∈ (memberAll cfg x p r hint).1.parts.map (·.conn) := by
@@ -366,7 +369,7 @@ theorem member_any (cfg : Cfg) {srv : Server} (h : srv.WF) {x : Session} (hx : x
   case receipt => simp [isReceipt] at hrc
   case join rid ots t =>
     cases t with
-    | new => simp [joinsOther] at hj
+    | new => simp [isJoinNew] at hnew
     | bogus =>
       simp [memberAll, stepReq, Server.handleReq, Server.join, hl, Server.resolves, hx, ha]
     | id n =>
@@ -376,6 +379,60 @@ theorem member_any (cfg : Cfg) {srv : Server} (h : srv.WF) {x : Session} (hx : x
   all_goals
     exact member_request cfg h hx hp ha hne _ hint (by intro _ _ _ e; cases e) (by intro _ _ _ _ e; cases e) (by intro _ e; cases e)
 
+
+/-- a member leaves by asking for a session of its own: the session loses it, and its remaining members are sent the
+    departure - what the leaver and its new session get is not theirs to see -/
+theorem member_leaves_by_new (cfg : Cfg) {srv : Server} (h : srv.WF) {x : Session} (hx : x ∈ srv.sessions) {p : Part}
+    (hp : p ∈ x.parts) {a : Nat} (ha : a ∈ x.parts.map (·.conn)) (hne : a ≠ p.conn) (rid ots hint : Nat) :
+    (x.leave cfg p.pid).1 ∈ (stepReq cfg srv ⟨p.conn, .join rid ots .new, hint⟩).1.sessions ∧
+    seen (stepReq cfg srv ⟨p.conn, .join rid ots .new, hint⟩).1 x.id (stepReq cfg srv ⟨p.conn, .join rid ots .new, hint⟩).2 =
+      (x.leave cfg p.pid).2.filter (fun d => ((x.leave cfg p.pid).1.parts.map (·.conn)).contains d.1) ∧
+    a ∈ (x.leave cfg p.pid).1.parts.map (·.conn) := by
+  have hl := locate_member h hx hp
+  have hst := anchor_stays (h.members x hx) hp ha hne cfg
+  have hlid : (x.leave cfg p.pid).1.id = x.id := (Session.leave_frame cfg x p.pid).1
+  have hleave : srv.leave cfg x p = (srv.setSession (x.leave cfg p.pid).1, (x.leave cfg p.pid).2) := by
+    unfold Server.leave
+    have : ((x.leave cfg p.pid).1.parts.isEmpty) = false := by simpa using hst.2
+    simp [this]
+  have hne1 : (JoinTarget.new == JoinTarget.id x.id) = false := rfl
+  have hw' := stepReq_WF cfg h ⟨p.conn, .join rid ots .new, hint⟩
+  -- the step, unfolded
+  have hstep : stepReq cfg srv ⟨p.conn, .join rid ots .new, hint⟩ =
+      (((srv.setSession (x.leave cfg p.pid).1).joinFresh cfg p.conn rid ots .new hint).1,
+       (x.leave cfg p.pid).2 ++ ((srv.setSession (x.leave cfg p.pid).1).joinFresh cfg p.conn rid ots .new hint).2.1) := by
+    unfold stepReq
+    simp only [Server.handleReq, Server.join, hl, hne1, Server.resolves, Bool.false_eq_true, if_false, Bool.not_true, hleave]
+    simp [Server.joinFresh]
+  rw [hstep] at hw' ⊢
+  have hxin : (x.leave cfg p.pid).1 ∈ ((srv.setSession (x.leave cfg p.pid).1).joinFresh cfg p.conn rid ots .new hint).1.sessions := by
+    simp only [Server.joinFresh, List.mem_append]
+    exact Or.inl (mem_setSession_self hx hlid)
+  refine ⟨hxin, ?_, hst.1⟩
+  unfold seen
+  have hmem := members_of_mem hw' hxin
+  rw [hlid] at hmem
+  rw [hmem, List.filter_append]
+  have hcout : p.conn ∉ (x.leave cfg p.pid).1.parts.map (·.conn) := by
+    intro hm
+    obtain ⟨q, hq, hqc⟩ := List.mem_map.mp hm
+    rw [(Session.leave_frame cfg x p.pid).2.2.2] at hq
+    have hq' := List.mem_filter.mp hq
+    have : q = p := inj_of_nodup_map (·.conn) (h.members x hx).conns_nodup hq'.1 hp hqc
+    subst this
+    simp at hq'
+  have hnone : (((srv.setSession (x.leave cfg p.pid).1).joinFresh cfg p.conn rid ots .new hint).2.1.filter
+      fun d => ((x.leave cfg p.pid).1.parts.map (·.conn)).contains d.1) = [] := by
+    apply filter_none
+    intro d hd
+    simp only [Server.joinFresh] at hd
+    have ht := joinDeliveries_tgt cfg _ _ rid ots d hd
+    have hdc : d.1 = p.conn := by
+      simp [Session.addPart] at ht
+      exact ht
+    rw [hdc]
+    simpa using hcout
+  rw [hnone, List.append_nil]
 
 /-- a request that concerns the session does the same to it, and shows its members the same, in both servers -/
 theorem insider_step (cfg : Cfg) {xid a : Nat} {s1 s2 : Server} (hA : Agree xid a s1 s2) (e : RE)
@@ -394,8 +451,20 @@ theorem insider_step (cfg : Cfg) {xid a : Nat} {s1 s2 : Server} (hA : Agree xid 
     have hj' : joinsOther x.id e.r = false := hj (by rw [hm1]; simpa using hc)
     have hne : a ≠ p.conn := by rw [hpc]; exact fun h => hea h.symm
     have he : e = ⟨p.conn, e.r, e.hint⟩ := by cases e; simp at hpc ⊢; exact hpc.symm
-    have r1 := member_any cfg hA.wf1 hx1 hp hax hne e.r e.hint hrc hj'
-    have r2 := member_any cfg hA.wf2 hx2 hp hax hne e.r e.hint hrc hj'
+    by_cases hnew : isJoinNew e.r = true
+    · -- it leaves for a session of its own
+      obtain ⟨c, r, hint⟩ := e
+      cases r <;> simp [isJoinNew] at hnew
+      case join rid ots t =>
+        cases t <;> simp at hnew
+        simp only at hpc
+        subst hpc
+        have r1 := member_leaves_by_new cfg hA.wf1 hx1 hp hax hne rid ots hint
+        have r2 := member_leaves_by_new cfg hA.wf2 hx2 hp hax hne rid ots hint
+        exact ⟨by rw [r1.2.1, r2.2.1], hw1, hw2, _, r1.1, r2.1, (Session.leave_frame cfg x p.pid).1, r1.2.2⟩
+    have hnew' : isJoinNew e.r = false := by simpa using hnew
+    have r1 := member_any cfg hA.wf1 hx1 hp hax hne e.r e.hint hrc hj' hnew'
+    have r2 := member_any cfg hA.wf2 hx2 hp hax hne e.r e.hint hrc hj' hnew'
     rw [← he] at r1 r2
     have hs1 := members_of_mem hw1 r1.1
     have hs2 := members_of_mem hw2 r2.1
